@@ -322,7 +322,19 @@ def irregular_samples(rng, salt, kind):
         return rng.choice([1, "x", True, None, 1.5, "2020-01-01", "", 2**60, [], {}])
 
     docs = {}
+    feats = ["irregular-json"]
     for i in range(rng.randrange(1, 3)):
         d = {k: val(1) for k in rng.sample(keys, rng.randrange(1, 6)) if k != ""} or {"a": 1}
-        docs[f"s{i}.json"] = json.dumps(rng.choice([d, [d, d]])).encode()
-    return docs, sorted(docs), ["irregular-json"]
+        doc = rng.choice([d, [d, d]])
+        r = rng.random()
+        if r < 0.06:
+            # a document that is no object / array of objects: nothing to generate from, to be refused as such
+            doc = rng.choice([[1, 2], 3, None, "text", [[d]], [d, "x"], True, [None]])
+            feats.append("json-root-not-an-object")
+        elif r < 0.14:
+            # keys that are legal JSON but no names: empty, control characters, quotes, braces, backslashes
+            d[rng.choice(["", "\t", "\n", "5\" pipe", "{id}name", "C:\\dir\\x", "\ufff0", "a\u0000b", "{", "}x"])] = rng.choice([1, {"x": 1}, [1]])
+            doc = d
+            feats.append("json-hostile-key")
+        docs[f"s{i}.json"] = json.dumps(doc).encode()
+    return docs, sorted(docs), feats
